@@ -1,4 +1,5 @@
 import Prism.Proofs.C04
+import Prism.Proofs.C04Code
 import Prism.Proofs.C04Compose
 import Prism.Proofs.C04Float
 
@@ -6,6 +7,8 @@ import Prism.Proofs.C04Float
 #print axioms Prism.C04_adaptation_matrices
 #print axioms Prism.C04_alpha
 #print axioms Prism.C04_same_space_no_adaptation
+#print axioms Prism.C04_value_fin
+#print axioms Prism.C04_code_accuracy
 #print axioms Prism.C04_value_at_encoder
 #print axioms Prism.C04_pipeline_linear
 #print axioms Prism.C04_same_space_reference
